@@ -34,6 +34,8 @@ func init() {
 		Rule: "seeded Swagger 2.0 descriptions (base path, global and per-operation consumes/produces over 9 lower-case media types plus the two form media types on the consumes side, 0-4 security definitions, global/per-operation/cleared security with 1-2 scheme alternatives and anonymous, 0-6 operations over 7 methods; wide descriptions: see below) loaded with loads.Analyzed; " +
 			"per description and JSON-defaults mode the registration sets: exact, every single omission, single additions per category (fresh media type, wildcard media type, media type with a parameter, fresh/other-method/path-case/trailing-slash operation (also substituted for the declared one), fresh/case-variant scheme, authenticator for a declared-but-unused definition), case variants of media types and methods, duplicates, random multi-category deltas, Register* calls made on the same API value AFTER a judged Validate (one superfluous item after a success, the one missing item after a failure, an existing key registered again) followed by another judged Validate, caller-assigned DefaultConsumes/DefaultProduces (a named media type); the root template '/' is declared now and then; " +
 			"oracle = per-category set comparison computed from the generated description; Validate is called twice in a row on every API (same outcome required); every registration set that validates (exact, case variants, duplicates, application/json left to the JSON defaults, ...) is served, after the second Validate, through Context.APIHandler with >= 3 well-formed requests per operation (each consumes/produces type, charset parameter, upper-case media type, Accept forms incl. 'application/json, <declared>;q=0.9' and 'application/json, */*;q=0.8' on operations that produce no JSON, scripted 'does not apply' authenticators) using tagged stub consumers/producers/authenticators; one description in 20 is also validated with one media type in mixed case (registered as spelt: must validate) or with a parameter (outcome classed 'probe:nonlower-description/...', not judged). " +
+			"One description in 8 is also turned into one that names 1-2 media types in a FURTHER SPELLING (letter case: text/csv and text/CSV) within one category - in the same list, or in another list of the category (global list, another operation's list: appended, or in place of the spelling that stands there); it gets the same registration sets (exact = every type once, every single omission, the additions, case variants, duplicates, Register* between two validations, multi-category deltas) plus 1, 2 and 3 superfluous consumers / producers in both JSON-defaults modes; " +
+			"validation only (outside the serving clause), required set = the media types with letter case folded; signatures of these descriptions end in /description-spells-a-type-two-ways. " +
 			"Consumes lists name multipart/form-data and application/x-www-form-urlencoded now and then (next to other types or alone; an operation whose own consumes list names form types only declares a formData parameter two times in three, and is sent real forms); DELETE and OPTIONS operations declare and are sent bodies too; the anonymous security alternative comes first or last, and an operation that has one also gets a request on which every scheme 'does not apply'; one registration set per description also registers an allow-all authorizer. " +
 			"One operation in six declares 204 as its success status (200/201 otherwise), and one description in ten is command-style: no produces at any level, two operations in three answering 204 - validated without JSON defaults such an API holds no producer at all and is served like every other. " +
 			"One description in 50 is WIDE: 24-100 names in one category (operations /bulk/rNN, consumed or produced media types application/vnd.c19.tNN+json, security schemes sNN each used by an operation), with the same registration sets (every single omission included); its first 3 validated APIs are served, 8 sampled operations each. " +
@@ -41,6 +43,7 @@ func init() {
 			"non-trivial = (description, registration set) with a non-empty delta, distinct by (description hash, delta); and (description, mode, registration kind, operation, request shape) served by a validated API whose description names >= 2 media types",
 		Assumptions: []string{
 			"descriptions name media types in lower case, without parameters or wildcards (the statement's serving clause is restricted to these); case variants are exercised on the registration side, where a media type registered in another letter case counts as that media type and a method in another letter case as that method; paths and scheme names are compared exactly",
+			"a description that names one media type in two spellings which differ by letter case only (within one list, or in the lists of two operations) requires that media type ONCE: the registry holds one consumer / producer per media type whatever the letter case (the ruling for a description that names a type in mixed case), so the registrations coincide with the requirements exactly when every such type is registered once and nothing else is; a superfluous registration is owed its report however many spellings the description uses",
 			"every security requirement names a declared security definition (valid Swagger); 'consumes'/'produces' are never present-but-empty",
 			"a media type or scheme named only globally and overridden by every operation is required under the reading 'everything the description names' and not under the reading 'everything some operation uses': the oracle accepts an outcome that is consistent with either reading, but for one category only ONE reading over the whole run: a validation that only the first reading explains and another that only the second explains, for the same category, are a violation (success would be 'exactly when' under neither)",
 			"the statement fixes neither the order of reported names nor, for the security-definitions category, which of the two lists carries an unused definition: names are compared as sets (duplicates refused), and for that category the union of both lists is compared",
@@ -354,12 +357,14 @@ func required(d *Desc, effective bool) [nCats]strset {
 	for i := range r {
 		r[i] = strset{}
 	}
+	// a media type is one requirement however the description spells it (letter case): two spellings of one type, in one
+	// list or in the lists of two operations, are the same required consumer / producer (the registry holds one entry for it)
 	if !effective {
 		for _, c := range d.Consumes {
-			r[catConsumes][c] = true
+			r[catConsumes][strings.ToLower(c)] = true
 		}
 		for _, p := range d.Produces {
-			r[catProduces][p] = true
+			r[catProduces][strings.ToLower(p)] = true
 		}
 		if d.HasSec {
 			altNames(d.Security, r[catAuth])
@@ -370,18 +375,18 @@ func required(d *Desc, effective bool) [nCats]strset {
 		r[catOperation][opName(op.Method, op.Path)] = true
 		if effective {
 			for _, c := range effConsumes(d, op) {
-				r[catConsumes][c] = true
+				r[catConsumes][strings.ToLower(c)] = true
 			}
 			for _, p := range effProduces(d, op) {
-				r[catProduces][p] = true
+				r[catProduces][strings.ToLower(p)] = true
 			}
 			altNames(effSecurity(d, op), r[catAuth])
 		} else {
 			for _, c := range op.Consumes {
-				r[catConsumes][c] = true
+				r[catConsumes][strings.ToLower(c)] = true
 			}
 			for _, p := range op.Produces {
-				r[catProduces][p] = true
+				r[catProduces][strings.ToLower(p)] = true
 			}
 			if op.HasSec {
 				altNames(op.Security, r[catAuth])
@@ -710,6 +715,7 @@ func revalidateAfterRegister(m *mon.M, d *Desc, g *Reg, api *untyped.API, rec *r
 	if step == g.Kind {
 		step = "other"
 	}
+	step += descFeature(d)
 	var err, errAgain error
 	pv, st := mon.Catch(func() {
 		register(api, g.Then, rec)
@@ -776,7 +782,7 @@ func judgeValidate0(m *mon.M, d *Desc, doc *loads.Document, dhash string, g *Reg
 		// it is the API validated twice that is served afterwards
 		errAgain = api.Validate()
 	})
-	kc := kindClass(g.Kind)
+	kc := kindClass(g.Kind) + descFeature(d)
 	if pv != nil {
 		m.Violate("validate-panic/"+kc, fmt.Sprintf("building/validating the API panicked: %v\n%s", pv, st), cas)
 		return nil, false
@@ -2295,6 +2301,196 @@ func judgeNonLower(m *mon.M, dp *Desc, g Reg, how string) {
 	}
 }
 
+// ---- descriptions that spell one media type in two ways ----
+
+// spellings counts, per media-type category, the spellings the description uses and the media types they stand for.
+func spellings(d *Desc) (spelt, types [2]int) {
+	var verb, fold [2]strset
+	for c := range verb {
+		verb[c], fold[c] = strset{}, strset{}
+	}
+	add := func(c int, l []string) {
+		for _, t := range l {
+			verb[c][t] = true
+			fold[c][strings.ToLower(t)] = true
+		}
+	}
+	add(catConsumes, d.Consumes)
+	add(catProduces, d.Produces)
+	for i := range d.Ops {
+		add(catConsumes, d.Ops[i].Consumes)
+		add(catProduces, d.Ops[i].Produces)
+	}
+	for c := range verb {
+		spelt[c], types[c] = len(verb[c]), len(fold[c])
+	}
+	return
+}
+
+// descFeature is the input feature class, in a signature, of a description that names one media type in two spellings
+// that differ by letter case within one category ("" for every other description).
+func descFeature(d *Desc) string {
+	spelt, types := spellings(d)
+	if spelt[catConsumes] > types[catConsumes] || spelt[catProduces] > types[catProduces] {
+		return "/description-spells-a-type-two-ways"
+	}
+	return ""
+}
+
+// otherSpelling gives a spelling of the media type that differs by letter case only and is none of the taken ones.
+func otherSpelling(r *rand.Rand, t string, taken strset) string {
+	low := strings.ToLower(t)
+	cands := []string{strings.ToUpper(low), upperType(low), mixCase(r, low), mixCase(r, low), low}
+	r.Shuffle(len(cands)-1, func(i, j int) { cands[i], cands[j] = cands[j], cands[i] }) // the lower-case spelling last
+	for _, c := range cands {
+		if !taken[c] {
+			return c
+		}
+	}
+	return ""
+}
+
+// twoSpellingsDesc derives from a lower-case description one that names 1-2 media types in a further spelling
+// (letter case) within a category: in the same list, or in another list of that category (the global list, the list of
+// another operation - appended, or in place of the spelling that stands there; an operation without a list of its own
+// gets one now and then). how names what was done ("" = the description names no media type).
+func twoSpellingsDesc(r *rand.Rand, d0 *Desc) (d *Desc, how string) {
+	raw0, _ := json.Marshal(d0)
+	d = &Desc{}
+	if json.Unmarshal(raw0, d) != nil {
+		return nil, ""
+	}
+	n := 1 + r.Intn(3)/2 // 1, 1 or 2 further spellings
+	for k := 0; k < n; k++ {
+		cat := r.Intn(2)
+		lists := func(cat int) (ls []*[]string) {
+			if cat == catConsumes {
+				ls = append(ls, &d.Consumes)
+				for i := range d.Ops {
+					ls = append(ls, &d.Ops[i].Consumes)
+				}
+			} else {
+				ls = append(ls, &d.Produces)
+				for i := range d.Ops {
+					ls = append(ls, &d.Ops[i].Produces)
+				}
+			}
+			return
+		}
+		ls := lists(cat)
+		nonEmpty := func(ls []*[]string) (out []int) {
+			for i, l := range ls {
+				if len(*l) > 0 {
+					out = append(out, i)
+				}
+			}
+			return
+		}
+		ne := nonEmpty(ls)
+		if len(ne) == 0 {
+			cat = 1 - cat
+			ls = lists(cat)
+			ne = nonEmpty(ls)
+		}
+		if len(ne) == 0 {
+			break
+		}
+		taken := strset{}
+		for _, l := range ls {
+			for _, t := range *l {
+				taken[t] = true
+			}
+		}
+		src := ls[ne[r.Intn(len(ne))]]
+		t := (*src)[r.Intn(len(*src))]
+		v := otherSpelling(r, t, taken)
+		if v == "" {
+			continue
+		}
+		// where the further spelling goes
+		dst, where := src, "same-list"
+		if r.Intn(3) > 0 && len(ls) > 1 {
+			j := r.Intn(len(ls))
+			// a form-only operation keeps its list (its formData parameter needs it)
+			if ls[j] != src && !(cat == catConsumes && j > 0 && d.Ops[j-1].Form) {
+				dst, where = ls[j], "other-list"
+			}
+		}
+		replaced := false
+		if dst != src {
+			for i, e := range *dst {
+				if strings.EqualFold(e, t) {
+					(*dst)[i], replaced = v, true // "text/csv" here, "text/CSV" there
+					break
+				}
+			}
+		}
+		if !replaced {
+			if i := r.Intn(len(*dst) + 1); i == len(*dst) {
+				*dst = append(*dst, v)
+			} else {
+				*dst = append((*dst)[:i], append([]string{v}, (*dst)[i:]...)...)
+			}
+		}
+		if how != "" {
+			how += "+"
+		}
+		how += catNames[cat] + ":" + where
+	}
+	if descFeature(d) == "" {
+		return nil, ""
+	}
+	return d, how
+}
+
+// probeTwoSpellings: the registration sets of a description that names one media type in two spellings within a
+// category. Such a description lies outside the serving clause (its media types are not all lower-case): the validation
+// clause alone is judged - both spellings are ONE required consumer / producer, so the exact set is the one that holds
+// it once, and every omission, addition and multi-category delta is owed the same report as for the one-spelling
+// description. Besides the registration sets of every description: 1-3 superfluous media types in one category, in both
+// JSON-defaults modes (a count of registrations that equals a count of spellings says nothing about the sets).
+func probeTwoSpellings(m *mon.M, r *rand.Rand, d0 *Desc) {
+	d, how := twoSpellingsDesc(r, d0)
+	if d == nil {
+		return
+	}
+	m.Class("description:two-spellings/" + how)
+	spelt, types := spellings(d)
+	for c := range spelt {
+		if k := spelt[c] - types[c]; k > 0 {
+			m.Class(fmt.Sprintf("description:two-spellings/%s/%d-further-spelling(s)", catNames[c], k))
+		}
+	}
+	regs := variants(r, d, 4)
+	base := exactReg(d, false)
+	named := required(d, false)
+	for k := 1; k <= 3; k++ {
+		for cat := 0; cat < 2; cat++ {
+			g := cloneReg(base, fmt.Sprintf("addition:%s-x%d", regCatNames[cat], k))
+			seen := strset{}
+			for t := range named[cat] {
+				seen[t] = true
+			}
+			for j := 0; j < k; j++ {
+				t := freshFrom(r, seen, mediaTypes)
+				if seen[t] {
+					t = fmt.Sprintf("application/x-extra-%d", j)
+				}
+				seen[t] = true
+				if cat == catConsumes {
+					g.Consumers = append(g.Consumers, t)
+				} else {
+					g.Producers = append(g.Producers, t)
+				}
+			}
+			g2 := cloneReg(g, g.Kind)
+			g2.NoJSONDefaults = true
+			regs = append(regs, g, g2)
+		}
+	}
+	runDesc(m, r, d, regs, false, nil)
+}
+
 func namesMixedCaseType(d *Desc) bool {
 	lists := [][]string{d.Consumes, d.Produces}
 	for i := range d.Ops {
@@ -2316,6 +2512,7 @@ func run(m *mon.M) {
 	resetReadings()
 	r := m.Rand("descriptions")
 	rb := m.Rand("answers-without-body")
+	rs := m.Rand("two-spellings")
 	n := m.N(700, 7000)
 	for i := 0; i < n; i++ {
 		d := genDesc(r)
@@ -2327,6 +2524,9 @@ func run(m *mon.M) {
 		runDesc(m, r, d, regs, true, nil)
 		if i%20 == 7 {
 			probeNonLower(m, m.Rand("nonlower"), d)
+		}
+		if i%8 == 3 && !isWide(d) {
+			probeTwoSpellings(m, rs, d)
 		}
 	}
 }
